@@ -392,6 +392,11 @@ func Draw(t *rapid.T, o GenOpts) Schema {
 					return ty != nil && ty.Kind == "struct" && ty.Repr == "stringjoin"
 				})
 				ty.Delim = rapid.SampledFrom([]string{":", "", "-", "="}).Draw(t, "delim")
+				if o.GenOnly && ty.Delim == "" {
+					// the empty delimiter is an artefact of the Go API (the schema language gives full
+					// prefixes); the code generator always splits on a delimiter
+					ty.Delim = ":"
+				}
 				nm := rapid.IntRange(1, 3).Draw(t, "nmembers")
 				seen := map[string]bool{}
 				for j := 0; j < nm; j++ {
@@ -407,4 +412,61 @@ func Draw(t *rapid.T, o GenOpts) Schema {
 		s.Types = append(s.Types, ty)
 	}
 	return s
+}
+
+// BuildMinimal is Build without the default basic types: only the built-in scalars the schema
+// actually refers to (plus String for map keys) are declared, which is what the code generator
+// needs (it has no generator for Any and the prelude's Map/List).
+func (s *Schema) BuildMinimal() (ts *schema.TypeSystem, err error) {
+	defer func() {
+		if r := recover(); r != nil {
+			err = fmt.Errorf("PANIC while building the type system: %v", r)
+		}
+	}()
+	used := map[string]bool{"String": true}
+	for _, t := range s.Types {
+		if t.Elem != "" {
+			used[t.Elem] = true
+		}
+		for _, f := range t.Fields {
+			used[f.Type] = true
+		}
+		for _, m := range t.Members {
+			used[m.Type] = true
+		}
+	}
+	full, err := s.Build()
+	if err != nil {
+		return nil, err
+	}
+	ts = new(schema.TypeSystem)
+	ts.Init()
+	for _, b := range Builtins {
+		if !used[b] {
+			continue
+		}
+		switch b {
+		case "Bool":
+			ts.Accumulate(schema.SpawnBool("Bool"))
+		case "Int":
+			ts.Accumulate(schema.SpawnInt("Int"))
+		case "Float":
+			ts.Accumulate(schema.SpawnFloat("Float"))
+		case "String":
+			ts.Accumulate(schema.SpawnString("String"))
+		case "Bytes":
+			ts.Accumulate(schema.SpawnBytes("Bytes"))
+		case "Link":
+			ts.Accumulate(schema.SpawnLink("Link"))
+		case "Any":
+			ts.Accumulate(schema.SpawnAny("Any"))
+		}
+	}
+	for _, t := range s.Types {
+		ts.Accumulate(schema.Clone(full.TypeByName(t.Name)))
+	}
+	if errs := ts.ValidateGraph(); len(errs) > 0 {
+		return nil, fmt.Errorf("schema invalid: %v", errs)
+	}
+	return ts, nil
 }
